@@ -234,6 +234,24 @@ def rule_wasm(ck, facts):
         ck.ok(R, "success-sets-state", {"success_paths": n_true})
     else:
         ck.bad(R, "success-sets-state", "try_hot_swap can report success without installing a state buffer in the new engine (%d of %d paths)" % (bad_true, n_true), f.where())
+    # whenever the running engine had state, what is installed derives from it (verbatim or through the patches)
+    lost = None
+    n_some = 0
+    for p, arg in eq_paths:
+        some = any(c[0][0] == "disc" and "get_global_state_data" in repr(c[0]) and c[2] and c[1] == 1 for c in p.conds)
+        if not some:
+            continue
+        n_some += 1
+        carried = "get_global_state_data" in repr(arg) or any(
+            e[0] == "call" and e[1].endswith("apply_patches") and "get_global_state_data" in repr(e[2]) for e in p.events
+        )
+        if not carried and lost is None:
+            lost = (p, arg)
+    if lost is None:
+        ck.ok(R, "snapshot-carried", {"paths_with_old_state": n_some})
+    else:
+        ck.bad(R, "snapshot-carried", "try_hot_swap has a success path on which the running engine had state (the snapshot is `Some`) but the buffer installed in the new engine is %s: neither a copy of the snapshot nor the result of applying the patches to it — every cell restarts from the prewarmed state although nothing changed" % show(lost[1])[:120], f.where())
+    ck.floor(R, "success_paths_with_old_state", n_some, 3)
     # equal-skeleton branch: next state = clone of the snapshot
     found = False
     for p, arg in eq_paths:
@@ -373,4 +391,14 @@ def run(ck, facts, tier):
     # the CLI hands an unchanged program over with equal layouts and a whole-storage copy patch: the patch path and
     # the size of the buffer it reads from matter for this property too
     c08.rule_source_size(ck, facts)
+    # "unchanged program" means compiled again from the same text: the order in which the compiler lays out state
+    # cells must not depend on hash iteration order (equal-shaped cells compare equal, so a permuted layout is
+    # copied verbatim and the cells continue with each other's state)
+    from . import c15
+    from ..callgraph import CallGraph
+
+    cg = CallGraph(facts, ["mimium_lang", "state_tree"])
+    roots = [p for p, f in cg.fns.items() if f.short.startswith("compiler::Context::emit_") and f.d["vis"] == "pub"]
+    par = cg.reach(roots)
+    c15.rule_hash_iteration(ck, facts, cg, par)
     ck.not_decided("sample-exact continuity across the swap; effects of re-running main (arrays, closures, delay write heads) — run-time histories")
